@@ -111,6 +111,9 @@ func runC04(c *Ctx) {
 		one(idx, kind, doc)
 		return true
 	})
+	for i, d := range chunkBoundaryDocs() {
+		one(i, "chunk-boundary", d)
+	}
 	// truncations of every corpus document (unterminated constructs at end of input)
 	corpus := corpusDocs()
 	step := 1
@@ -338,6 +341,9 @@ func runC08(c *Ctx) {
 			}
 		}
 		one(i*4, "long", sb.Bytes())
+	}
+	for i, d := range chunkBoundaryDocs() {
+		one(i*4, "chunk-boundary", d)
 	}
 }
 
@@ -766,6 +772,9 @@ func runC16(c *Ctx) {
 		one(idx, kind, doc)
 		return true
 	})
+	for i, d := range chunkBoundaryDocs() {
+		one(i, "chunk-boundary", d)
+	}
 	alpha := []string{"a", " ", "\n", "-", ">", "`", "#", "[", "]", ":", "=", "\t", "<"}
 	max := 5
 	if !c.quick() {
